@@ -179,40 +179,42 @@ Qed.
 (* a value read with the committed (length, digest) pair, from whatever bytes at whatever offset:
    an error, or the committed value, or a collision *)
 Theorem corrupt_value_detected v :
-  forall mode txlog vlogs off v',
-    read_value H mode txlog vlogs (len v) off (H v) = Ok v' -> v' = v \/ Collision.
+  forall mvl mode txlog vlogs off v',
+    read_value H mvl mode txlog vlogs (len v) off (H v) = Ok v' -> v' = v \/ Collision.
 Proof.
-  intros mode txlog vlogs off v'. unfold read_value.
+  intros mvl mode txlog vlogs off v'. unfold read_value.
   destruct (N.eqb_spec (len v) 0) as [Z|NZ].
   - intros E. left. rewrite (len_nil v Z). congruence.
-  - intros E. apply read_value_at_ok in E as [_ E]. apply H_inj in E as [E|C]; auto.
+  - destruct (mvl <? len v); [discriminate|].
+    intros E. apply read_value_at_ok in E as [_ E]. apply H_inj in E as [E|C]; auto.
 Qed.
 
 (* the value length and offset of an entry are not hashed, so an altered record may carry any
    (vlen', off') next to the committed digest: the read then fails, or returns the committed value,
    or returns the EMPTY value because vlen' = 0, or a collision has been found *)
 Theorem corrupt_entry_value_partial v :
-  forall mode txlog vlogs vlen' off' v',
-    read_value H mode txlog vlogs vlen' off' (H v) = Ok v' ->
+  forall mvl mode txlog vlogs vlen' off' v',
+    read_value H mvl mode txlog vlogs vlen' off' (H v) = Ok v' ->
     v' = v \/ (vlen' = 0 /\ v' = []) \/ Collision.
 Proof.
-  intros mode txlog vlogs vlen' off' v'. unfold read_value.
+  intros mvl mode txlog vlogs vlen' off' v'. unfold read_value.
   destruct (N.eqb_spec vlen' 0) as [Z|NZ].
   - intros E. right; left. split; congruence.
-  - intros E. apply read_value_at_ok in E as [_ E]. apply H_inj in E as [E|C]; auto.
+  - destruct (mvl <? vlen'); [discriminate|].
+    intros E. apply read_value_at_ok in E as [_ E]. apply H_inj in E as [E|C]; auto.
 Qed.
 
 (* ExportTx: when it does export values (flag "truncated" off), they are the committed ones even
    if the (vlen, off) pairs were altered: readValueAt checks the digest also for vlen = 0 *)
-Theorem export_values_sound mode txlog vlogs : forall es vs i l,
+Theorem export_values_sound mvl mode txlog vlogs : forall es vs i l,
   map (e_hval) es = map H vs ->
-  export_values H true mode txlog vlogs es i false = Ok (false, l) ->
+  export_values H true mvl mode txlog vlogs es i false = Ok (false, l) ->
   l = vs \/ Collision.
 Proof.
   induction es as [|e es IH]; intros vs i l Hh E.
   - destruct vs; [|discriminate]. simpl in E. left; congruence.
   - destruct vs as [|v vs]; [discriminate|]. simpl in Hh. injection Hh as Hv Hh.
-    cbn [export_values] in E.
+    cbn [export_values] in E. destruct (mvl <? e_vlen e); [discriminate|].
     destruct (read_value_at H true mode txlog vlogs (e_vlen e) (e_voff e) (e_hval e)) as [w|c|] eqn:R.
     3: discriminate.
     + inv_bind E as [t l0] name E0.
@@ -223,12 +225,13 @@ Proof.
     + destruct (c =? EEOF); [|discriminate].
       destruct (negb false && (0 <? i)); [discriminate|].
       inv_bind E as [t l0] name E0. exfalso.
-      assert (Tr : forall es i l, export_values H true mode txlog vlogs es i true <> Ok (false, l)).
+      assert (Tr : forall es i l, export_values H true mvl mode txlog vlogs es i true <> Ok (false, l)).
       { clear. induction es as [|e es IH]; intros i l; cbn [export_values]; [congruence|].
+        destruct (mvl <? e_vlen e); [discriminate|].
         destruct (read_value_at H true mode txlog vlogs (e_vlen e) (e_voff e) (e_hval e)) as [w|c|];
           [discriminate| |discriminate].
         destruct (c =? EEOF); [|discriminate]. cbn [negb andb].
-        destruct (export_values H true mode txlog vlogs es (i + 1) true) as [[t l0]| |] eqn:X;
+        destruct (export_values H true mvl mode txlog vlogs es (i + 1) true) as [[t l0]| |] eqn:X;
           cbn [bind]; try discriminate.
         intros Y. apply (IH (i + 1) l0). rewrite X. congruence. }
       apply (Tr es (i + 1) l0). rewrite E0. congruence.
